@@ -17,7 +17,7 @@
 (* line per event with a failing clause and then continues from the logged *)
 (* projection (resynchronisation), so each event is judged on its own.     *)
 (***************************************************************************)
-EXTENDS HGX, Derive, Json, IOUtils, TLCExt
+EXTENDS HGX, Dec, Derive, Json, IOUtils, TLCExt
 
 VARIABLES ti, li, store, nbad, nev, seen
 tvars == <<ti, li, store, nbad, nev, seen>>
@@ -26,13 +26,7 @@ Input  == JsonDeserialize(IOEnv.TRACE_FILE)
 Traces == Input.traces
 
 ---------------------------------------------------------------------------
-(* Decoding *)
-DecKey(j) == Key(Rng(j.s), Rng(j.t), j.x)
-DecKeys(sq) == [i \in DOMAIN sq |-> DecKey(sq[i])]
-SeqBag(sq) == [v \in Rng(sq) |-> Cardinality({i \in DOMAIN sq : sq[i] = v})]
-SetBag(A)  == [v \in A |-> 1]
-Pairs2Fun(sq) == [a \in {p[1] : p \in Rng(sq)} |-> (CHOOSE p \in Rng(sq) : p[1] = a)[2]]
-
+(* Decoding (keys, states: module Dec) *)
 DecOp(j) ==
   LET a == IF "k"  \in DOMAIN j THEN [j EXCEPT !.k = DecKey(j.k)] ELSE j
       b == IF "ks" \in DOMAIN a THEN [a EXCEPT !.ks = DecKeys(a.ks)] ELSE a
@@ -40,18 +34,8 @@ DecOp(j) ==
      THEN [b EXCEPT !.items = [i \in DOMAIN b.items |-> [b.items[i] EXCEPT !.k = DecKey(b.items[i].k)]]]
      ELSE b
 
-DecState(j) ==
-  LET ks == {DecKey(e.k) : e \in Rng(j.edges)}
-  IN [nodes |-> Rng(j.nodes),
-      E     |-> [k \in ks |-> LET e == CHOOSE c \in Rng(j.edges) : DecKey(c.k) = k
-                              IN [w |-> e.w, md |-> e.md]],
-      nmd   |-> Pairs2Fun(j.nmd),
-      hmd   |-> j.hmd,
-      wtd   |-> j.wtd]
-
 StateOf(ev, o) == DecState((CHOOSE p \in Rng(ev.st) : p[1] = o)[2])
 Objs(ev) == {p[1] : p \in Rng(ev.st)}
-Has(r, f) == f \in DOMAIN r
 
 ---------------------------------------------------------------------------
 (* Clauses: sets of <<name, holds>> *)
